@@ -235,6 +235,11 @@ def _reg_becke():
     def mk():
         return [_pts(12, 4) * 1.5, np.array([[0.0, 0, 0], [0, 0, 1.7], [1.5, 0, 0.4]]), np.array([1, 8, 6]), np.array([0, 4, 9, 12])]
     op("BeckeWeights.__call__", "AAAA", mk, lambda v, cb: [BeckeWeights(order=3)(v[0], v[1], v[2], v[3])])
+    # five atoms, twenty points: the whole-grid call works through several chunks
+    def mk5():
+        return [_pts(20, 4) * 2.0, np.array([[0.0, 0, 0], [0, 0, 1.7], [1.5, 0, 0.4], [-1.2, 0.3, 0.0], [0.2, -1.4, 0.9]]),
+                np.array([1, 8, 6, 7, 1]), np.array([0, 4, 8, 12, 16, 20])]
+    op("BeckeWeights.__call__[5 atoms, several chunks]", "AAAA", mk5, lambda v, cb: [BeckeWeights(order=3)(v[0], v[1], v[2], v[3])])
     op("BeckeWeights(radii)", "D", lambda: [{1: 0.6, 8: 1.1, 6: 1.3}],
        lambda v, cb: (lambda m: [BeckeWeights(v[0], order=2)(m[0], m[1], m[2], m[3])])(mk()))
     op("BeckeWeights.generate_weights", "AAALL", lambda: mk()[:3] + [[0, 2], [0, 5, 12]],
@@ -378,6 +383,19 @@ def _reg_ode():
     op("solve_ode_bvp[guess,transform]", "AALA", lambda: [np.linspace(-0.5, 0.5, 12), np.array([1.0, 0.5, 1.0]), [(0, 0, 0.0), (1, 0, 1.0)], np.zeros((2, 12))],
        lambda v, cb: (lambda s: [s(np.linspace(0.6, 1.4, 4))])(solve_ode_bvp(v[0], rhs(cb), v[1], v[2], LinearFiniteRTransform(0.0, 2.0), tol=1e-8, initial_guess_y=v[3])),
        cbs=["fresh", "arg", "cached"])
+    # transformations that hand their argument back unchanged (IdentityRTransform and its inverse wrapper): whatever
+    # the solver does to the transformed mesh it does to the caller's mesh
+    from grid.rtransform import IdentityRTransform, InverseRTransform
+    op("solve_ode_bvp[IdentityRTransform]", "AAL", lambda: [np.linspace(0.0, 1.0, 12), np.array([1.0, 0.5, 1.0]), [(0, 0, 0.0), (1, 0, 1.0)]],
+       lambda v, cb: (lambda s: [s(xs)])(solve_ode_bvp(v[0], rhs(cb), v[1], v[2], IdentityRTransform(), tol=1e-8, initial_guess_y=np.zeros((2, 12)))),
+       cbs=["fresh", "arg", "cached"])
+    op("solve_ode_bvp[Inverse(IdentityRTransform)]", "AAL", lambda: [np.linspace(0.0, 1.0, 12), np.array([1.0, 0.5, 1.0]), [(0, 0, 0.0), (1, 0, 1.0)]],
+       lambda v, cb: (lambda s: [s(xs)])(solve_ode_bvp(v[0], rhs(cb), v[1], v[2], InverseRTransform(IdentityRTransform()), tol=1e-8,
+                                                      initial_guess_y=np.zeros((2, 12)))),
+       cbs=["fresh"])
+    op("solve_ode_ivp[IdentityRTransform]", "A", lambda: [np.array([0.25, 2.0])],
+       lambda v, cb: (lambda s: [s(xs)])(solve_ode_ivp((0.0, 1.0), rhs(cb), [1.0, 0.5, 1.0], v[0], IdentityRTransform())),
+       cbs=["fresh"])
 
 
 def _reg_poisson():
